@@ -1,6 +1,6 @@
 (* C07: the hypotheses of the theorems are satisfiable by concrete, non-trivial states. *)
 From Coq Require Import NArith List Bool.
-From DvcData Require Import Base.Val Gen.Check Model.Integrity Proofs.IntegrityProofs Proofs.IntegrityProofsFold Proofs.IntegrityProofsAdd.
+From DvcData Require Import Base.Val Gen.Check Model.StateDbBase Model.Integrity Proofs.IntegrityProofs Proofs.IntegrityProofsFold Proofs.IntegrityProofsAdd.
 Import ListNotations.
 Open Scope N_scope.
 
